@@ -102,6 +102,22 @@ func (o *Options) ServerOptions() []string {
 		sargv = append(sargv, argstr)
 	}
 
+	// -D means --devices --specials to the server, so a client that asked
+	// for only one of the two has to say so.
+	if o.PreserveSpecials() {
+		if !o.PreserveDevices() {
+			sargv = append(sargv, "--specials")
+		}
+	} else if o.PreserveDevices() {
+		sargv = append(sargv, "--no-specials")
+	}
+
+	if o.Sender() {
+		if o.DeleteMode() {
+			sargv = append(sargv, "--delete")
+		}
+	}
+
 	// if (block_size) {
 	// 	if (asprintf(&arg, "-B%u", block_size) < 0)
 	// 		goto oom;
